@@ -77,10 +77,35 @@ def parseOp (cfgs : List Cfg) (s : String) : Option Op :=
   | ["M", inst, pid] => do pure (.removeMultiOwner inst (← pid.toInt?))
   | ["C", ci, n, now] => do pure (.create (← cfgs[← ci.toNat?]?) (List.replicate (← n.toNat?) 0) (← now.toInt?))
   | ["W", ci, now] => do pure (.wait (← cfgs[← ci.toNat?]?) (← now.toInt?))
+  | ["D", ci, now, _] => do pure (.wait (← cfgs[← ci.toNat?]?) (← now.toInt?))
   | ["O", ci, now] => do pure (.reconcileOwned (← cfgs[← ci.toNat?]?) (← now.toInt?))
   | ["R", ci, now] => do pure (.reconcileOthers (← cfgs[← ci.toNat?]?) (← now.toInt?))
   | ["S", ci, b] => do pure (.stopping (← cfgs[← ci.toNat?]?) (b == "1"))
   | _ => none
+
+/-- what the harness measured around the call: wall-clock bracket `[t0,t1]` (seconds) and, for a delayed
+`waitPartitionAndRegisterOwner`, the second at which the partition became visible to the lifecycler. -/
+structure Meta where
+  t0 : Int
+  t1 : Int
+  tvis : Option Int := none
+
+def parseOpMeta (cfgs : List Cfg) (s : String) : Option (Op × Meta) :=
+  match s.splitOn "@" with
+  | [body, br] =>
+    match br.splitOn ":" with
+    | [a, b] => do
+      let op ← parseOp cfgs body
+      let tvis := match body.splitOn "," with
+        | ["D", _, _, tv] => tv.toInt?
+        | _ => none
+      pure (op, { t0 := ← a.toInt?, t1 := ← b.toInt?, tvis := tvis })
+    | _ => none
+  | _ => none
+
+/-- does the operation stamp `time.Now()` (as opposed to the virtual clock handed to the reconcile handlers)? -/
+def stampsWallClock : Op → Bool
+  | .change .. => true | .lock .. => true | .create .. => true | .wait .. => true | _ => false
 
 def isReconcile : Op → Bool
   | .reconcileOwned .. => true | .reconcileOthers .. => true | _ => false
@@ -93,9 +118,26 @@ def resName (op : Op) (r : Except C15.Err (Option PDesc)) : String :=
 /-- the legal edges, written from the property text (judge side) -/
 def legalEdge (a b : Nat) : Bool := (a, b) == (1, 2) || (a, b) == (1, 3) || (a, b) == (2, 3) || (a, b) == (3, 2)
 
-/-- judge one recorded step `old --op--> new` -/
-def judgeStep (old new : PDesc) (op : Op) : List String := Id.run do
+/-- judge one recorded step `old --op--> new`. `bounds`: for owners registered by a delayed wait, the
+earliest second at which that registration can truly have happened (the partition was not visible before). -/
+def judgeStep (old new : PDesc) (op : Op) (m : Meta) (bounds : List (String × Int)) : List String := Id.run do
   let mut bad : List String := []
+  -- timestamps written by this call lie inside the call, and a registration is not dated before the
+  -- partition became visible to the registering lifecycler
+  if stampsWallClock op then
+    let inBr := fun (ts : Int) => m.t0 ≤ ts && ts ≤ m.t1
+    for q in new.parts do
+      match old.parts.find? (·.id == q.id) with
+      | some p =>
+        if p.state != q.state && !inBr q.stateTs then bad := "timestamp-outside-call-bracket" :: bad
+        if p.locked != q.locked && !inBr q.lockedTs then bad := "timestamp-outside-call-bracket" :: bad
+      | none => if !inBr q.stateTs then bad := "timestamp-outside-call-bracket" :: bad
+    for o in new.owners do
+      if (old.owners.find? (·.id == o.id)) != some o then
+        if !inBr o.updatedTs then bad := "timestamp-outside-call-bracket" :: bad
+        match m.tvis with
+        | some tv => if o.updatedTs < tv then bad := "owner-timestamp-before-registration" :: bad
+        | none => pure ()
   for p in old.parts do
     match new.parts.find? (·.id == p.id) with
     | some q =>
@@ -104,7 +146,11 @@ def judgeStep (old new : PDesc) (op : Op) : List String := Id.run do
         if p.locked then bad := "changed-while-locked" :: bad
         match op with
         | .reconcileOwned c now =>
-          let cnt := (old.owners.filter fun o => o.partition == c.pid && o.updatedTs < now - c.waitDur).length
+          -- owners counted with their TRUE registration time where the harness knows a later lower bound
+          let eff := fun (o : Owner) => match bounds.find? (·.1 == o.id) with
+            | some (_, b) => if b > o.updatedTs then b else o.updatedTs
+            | none => o.updatedTs
+          let cnt := (old.owners.filter fun o => o.partition == c.pid && eff o < now - c.waitDur).length
           if !(p.id == c.pid && p.state == 1 && q.state == 2 && cnt ≥ c.waitCount) then bad := "promotion-guard" :: bad
         | .change pid to _ => if !(p.id == pid && q.state == to) then bad := "changed-other-than-requested" :: bad
         | _ => bad := "state-changed-by-non-state-operation" :: bad
@@ -127,9 +173,10 @@ def handleHist (f : List String) : String × String × String :=
   | [init, lcs, ops, obs] =>
     match parsePDesc init, (lcs.splitOn ";").mapM parseCfg with
     | some d0, some cfgs =>
-      match (ops.splitOn ";").mapM (parseOp cfgs), (obs.splitOn "#").mapM (fun o => match o.splitOn "@" with
+      match (ops.splitOn ";").mapM (parseOpMeta cfgs), (obs.splitOn "#").mapM (fun o => match o.splitOn "@" with
           | [r, d] => (parsePDesc d).map fun pd => (r, d, pd) | _ => none) with
-      | some opl, some obl =>
+      | some oplm, some obl =>
+        let opl := oplm.map (·.1)
         if opl.length != obl.length then ("bad-lengths", "-", "-") else
         -- model replay
         let (_, mOut) := opl.foldl (fun (acc : PDesc × List String) op =>
@@ -143,13 +190,21 @@ def handleHist (f : List String) : String × String × String :=
         -- judge on the implementation's recorded versions
         let vers := d0 :: obl.map (·.2.2)
         let steps := (vers.zip (vers.drop 1)).zip opl
-        let judge := steps.flatMap fun ((a, b), op) => judgeStep a b op
+        let (judge, _) := ((vers.zip (vers.drop 1)).zip oplm).foldl
+          (fun (acc : List String × List (String × Int)) (x : (PDesc × PDesc) × (Op × Meta)) =>
+            let ((a, b), (op, m)) := x
+            let j := judgeStep a b op m acc.2
+            let bounds := match op, m.tvis with
+              | .wait c _, some tv => (c.ownerID, tv) :: acc.2
+              | _, _ => acc.2
+            (acc.1 ++ j, bounds)) ([], [])
+        let delayed := oplm.any (·.2.tvis.isSome)
         let changed := (steps.filter fun ((a, b), _) => a != b).length
         let promo := steps.any fun ((a, b), op) => match op with | .reconcileOwned .. => a != b | _ => false
         let del := steps.any fun ((a, b), _) => a.parts.length > b.parts.length
         let lockedErr := obl.any (·.1 == "locked") || obl.any (·.1 == "failed")
         let notAllowed := obl.any (·.1 == "stateChangeNotAllowed")
-        let tags := s!"hist ops={bucket opl.length} lcs={cfgs.length} changed={bucket changed} promo={promo} del={del} failed={lockedErr} notAllowed={notAllowed}"
+        let tags := s!"hist ops={bucket opl.length} lcs={cfgs.length} changed={bucket changed} promo={promo} del={del} failed={lockedErr} notAllowed={notAllowed} delayedWait={delayed}"
         (diff, joinReasons judge, tags)
       | _, _ => ("bad-ops", "-", "-")
     | _, _ => ("bad-input", "-", "-")
